@@ -45,6 +45,13 @@ pub fn gen_mappings(r: &mut Rng, maxn: u64) -> Vec<MappingInfo> {
         v.push(mk_mapping(addr as usize, size as usize, addr as usize, sys_end as usize, perms, Some("/lib/x.so")));
         addr += size;
     }
+    // the dumper's list is in address order except that the module holding the entry point is moved to the front
+    // (side stream, so that the other choices of a case keep their meaning)
+    let mut r2 = Rng::new(r.0 ^ 0x9b05_688c_2b3e_6c1f);
+    if v.len() >= 2 && r2.chance(1, 4) {
+        let k = r2.range(1, v.len() as u64 - 1) as usize;
+        v.swap(0, k);
+    }
     v
 }
 
@@ -176,13 +183,16 @@ pub fn generate_live(prop: &str, seed: u64, tier: &str, out: &mut dyn std::io::W
             // front of their stack: the region must begin at the stack mapping above, shortened or not
             {
                 let mut r2 = Rng::for_case(seed, 607, idx);
-                if prop == "C06" && r2.chance(2, 3) {
+                if (prop == "C06" || prop == "C12") && r2.chance(2, 3) {
                     for _ in 0..r2.range(1, 4) {
                         let kth = *r2.pick(&[1u64, 5, 19, 20, 21, nblock as u64 - 1, nblock as u64]);
                         targs.push("-w".to_string());
                         targs.push(format!("{}:-{}", kth, *r2.pick(&[8u64, 2040, 2048, 2056, 4096, 6000, 0x5010, 69000])));
                     }
                 }
+            }
+            if Rng::for_case(seed, 608, idx).chance(1, 2) {
+                targs.push("-L".to_string()); // the shared page below the executable: a principal mapping displaced by the entry-point swap
             }
             let t = match Target::spawn(&targs) {
                 Ok(t) => t,
@@ -191,7 +201,10 @@ pub fn generate_live(prop: &str, seed: u64, tier: &str, out: &mut dyn std::io::W
             let mut cfg = DumpCfg::default();
             let bt = &t.threads[r.below(t.threads.len() as u64) as usize];
             cfg.blamed = bt.tid;
-            if prop == "C06" {
+            if prop == "C12" {
+                cfg.sanitize = true; // shortened (chunk-skipped) and full stacks, sanitized: the call site's offset
+            }
+            if prop == "C06" || prop == "C12" {
                 cfg.limit = if variant % 2 == 0 { Some(*r.pick(&[1u64, 200_000])) } else { Some(50_000_000) };
                 if r.chance(1, 2) {
                     // crash context on a thread at a late list position: must never be shortened
